@@ -288,6 +288,7 @@ func checkC03(c *Ctx) {
 	borrowRule(c, "C04", "C04.ident", "C03.ident")
 	// every keyword spelling of the grammar (不等于, 不为, … included) is cut out as its token, else the production is never entered
 	borrowRule(c, "C04", "C04.trie", "C03.keywords")
+	R.Explain += " (C03.keywords = C04.trie) every keyword spelling of the grammar is cut out as its token."
 	// operator precedence and associativity are clauses of this property too (decided by C01's rules)
 	borrowRule(c, "C01", "C01.prec", "C03.prec")
 	borrowRule(c, "C01", "C01.assoc", "C03.assoc")
